@@ -84,16 +84,6 @@ def run(ch: Checker) -> None:
             st = n_.ast
             if n_.kind != 'stmt' or lab == 'exc':
                 continue
-            # C12.1
-            if isinstance(st, ast.Assign) and norm(st.targets[0]) == 'port':
-                http = fd.get('self.choice.scheme == HTTP_PROTO')
-                v = sym.value(st.value, i)
-                default = None
-                explicit = False
-                if isinstance(v, ast.BoolOp) and isinstance(v.op, ast.Or) and len(v.values) == 2:
-                    explicit = norm(v.values[0]) == 'self.choice.port'
-                    default = ce.try_eval(m, v.values[1])
-                tbl['http' if http else 'other'] = (explicit, default)
             for c in walk_no_nested(st):
                 if not isinstance(c, ast.Call):
                     continue
@@ -102,6 +92,18 @@ def run(ch: Checker) -> None:
                 if fn == 'self.initialize_upstream':
                     n2 += 1
                     a = [norm(sym.value(x, i)) for x in c.args]
+                    # C12.1: the port the connection is made to, by value (the local holding it may have any name)
+                    if len(c.args) == 2:
+                        http = fd.get('self.choice.scheme == HTTP_PROTO')
+                        v = sym.value(c.args[1], i)
+                        default = None
+                        explicit = False
+                        if isinstance(v, ast.BoolOp) and isinstance(v.op, ast.Or) and len(v.values) == 2:
+                            explicit = norm(v.values[0]) == 'self.choice.port'
+                            default = ce.try_eval(m, v.values[1])
+                        elif isinstance(v, ast.IfExp) and norm(v.test) in ('self.choice.port', 'self.choice.port is not None') and norm(v.body) == 'self.choice.port':
+                            explicit, default = True, ce.try_eval(m, v.orelse)
+                        tbl['http' if http else 'other'] = (explicit, default)
                     if len(a) != 2 or a[0] != 'text_(self.choice.hostname)' or not (a[1].startswith('self.choice.port or ')):
                         bad2 = ('the upstream connection is created for (%s): not the chosen URL\'s host and (defaulted) port' % ', '.join(a)[:100], p.describe(16))
                 if fn == 'self.upstream.wrap':
